@@ -58,6 +58,7 @@ ASSUMPTIONS = [
     "named paths never go through a symlinked directory (smart_add resolves symlinks in the directory part first); a missing named path is only generated as the single path of a call (git saves earlier named paths before it fails) and must be refused",
     "histories use the treesim operations that keep every versioned entry on disk with its recorded kind (write, mkdir, symlink, add, smart_add, commit, rename, move, remove); treesim.GUARDS states are not generated; a run whose tree disagrees with the treesim model before the first call is abandoned (probe prestate_mismatch)",
     "the model of smart_add generalises treesim.MTree._op_smart_add (one path, recurse, default rules) to path sets, recurse on/off, ignore files, nested trees and conflict helpers; it lives in this file so that C09/C10 keep their model unchanged",
+    "histories contain no commit that selects more than one path (treesim.MTree1): the bytes of the pack such a commit writes - hence the pack's md5 name and the order of every later index lookup - depend on the iteration order of a Rust HashSet in the dirstate iter_changes code, whose hash keys are drawn from the getrandom stream after process-history-dependent lazy initialisations, so one (seed, plan) gave different event logs in different worker processes; pack/index names are additionally masked in the event log (treesim.mask_content_names)",
     "runs execute in-process (ISOLATION=thread): each run builds tree, model and Sim from scratch",
 ]
 STEP_CAP = 200000
@@ -474,7 +475,7 @@ def sa_id(n, path):
 def generate(rng, tier):
     flavour = rng.choice(["bzr", "bzr", "git"])
     names = make_names(rng)
-    model = T.MTree(flavour)
+    model = T.MTree1(flavour)
     ops, g = gen_history(rng, model, names)
     env = Env(flavour)
     litter = gen_litter(rng, model, env, g)
@@ -724,8 +725,9 @@ def execute(sim, plan):
     fl = plan["flavour"]
     root = os.path.join(os.environ["VERIF_SCRATCH"], "t")
     T.relativise_log(sim, root)
+    T.mask_content_names(sim)
     tree = T.make_tree(sim, fl, "t")
-    model = T.MTree(fl)
+    model = T.MTree1(fl)
     env = Env(fl)
     # -- history ---------------------------------------------------------------------------
     for i, op in enumerate(plan["ops"]):
